@@ -12,6 +12,7 @@ package boltz
 // it proves nothing. Prints BOUNDED-FAIL lines, BOUNDED-CASES (operations run) and one HB-STATS line.
 
 import (
+	"context"
 	"fmt"
 	"math/rand"
 	"os"
@@ -601,7 +602,73 @@ func (r *hbRun) compareWithFresh(why string, universe []string) {
 	})
 }
 
+// hbDeepBasePath: the same indexes under a base path of three elements (the histories use one element). Index bucket
+// paths are derived from the store's base path; with a longer one, two indexes of a store must still get buckets of
+// their own (a derived path must not share its backing array with the next one).
+func hbDeepBasePath(t *testing.T) {
+	f, err := os.CreateTemp("", "verif-bounded-hb-deep")
+	if err != nil {
+		t.Fatal(err)
+	}
+	_ = f.Close()
+	defer os.Remove(f.Name())
+	db, err := bbolt.Open(f.Name(), 0600, &bbolt.Options{NoSync: true})
+	if err != nil {
+		t.Fatal(err)
+	}
+	defer db.Close()
+	people := &hbPeopleStore{NewBaseStore(StoreDefinition[*hbPerson]{EntityType: "hbpeople", EntityStrategy: hbPersonStrategy{},
+		EntityNotFoundF: func(id string) error { return NewNotFoundError("hbperson", "id", id) }, BasePath: []string{"d1", "d2", "d3"}})}
+	people.InitImpl(people)
+	people.AddIdSymbol("id", ast.NodeTypeString)
+	idxName := people.AddUniqueIndex(people.AddSymbol("name", ast.NodeTypeString))
+	idxNick := people.AddNullableUniqueIndex(people.AddSymbol("nick", ast.NodeTypeString))
+	idxTags := people.AddSetIndex(people.AddSetSymbol("tags", ast.NodeTypeString))
+	fail := func(format string, args ...interface{}) {
+		fmt.Printf("BOUNDED-FAIL deep base path: %s\n", fmt.Sprintf(format, args...))
+	}
+	err = db.Update(func(tx *bbolt.Tx) error {
+		ctx := NewTxMutateContext(context.Background(), tx)
+		people.InitializeIndexes(tx, &errorz.ErrorHolderImpl{})
+		if err := people.Create(ctx, &hbPerson{Id: "e1", Name: "n1", Nick: hbP("k1"), Tags: []string{"t1", "t2"}}); err != nil {
+			fail("create e1: %v", err)
+			return nil
+		}
+		// a value of one index is not a value of another
+		if id := idxName.Read(tx, []byte("n1")); string(id) != "e1" {
+			fail("name index: n1 -> %q, want e1", string(id))
+		}
+		for _, v := range []string{"k1", "t1", "t2"} {
+			if id := idxName.Read(tx, []byte(v)); id != nil {
+				fail("name index holds %q (a value of another index) -> %q", v, string(id))
+			}
+		}
+		if id := idxNick.Read(tx, []byte("k1")); string(id) != "e1" {
+			fail("nick index: k1 -> %q, want e1", string(id))
+		}
+		for _, v := range []string{"n1", "t1"} {
+			if id := idxNick.Read(tx, []byte(v)); id != nil {
+				fail("nick index holds %q (a value of another index) -> %q", v, string(id))
+			}
+		}
+		var listed []string
+		idxTags.Read(tx, []byte("t1"), func(val []byte) { listed = append(listed, string(val)) })
+		if len(listed) != 1 || listed[0] != "e1" {
+			fail("tags index: t1 lists %v, want [e1]", listed)
+		}
+		// a second entity whose name equals the first one's tag and nick values is no duplicate
+		if err := people.Create(ctx, &hbPerson{Id: "e2", Name: "t1", Nick: hbP("n1"), Tags: []string{"k1"}}); err != nil {
+			fail("create e2 (name t1, nick n1, tag k1 - all distinct within their own index): %v", err)
+		}
+		return nil
+	})
+	if err != nil {
+		fail("transaction: %v", err)
+	}
+}
+
 func TestVerifBoundedHistories(t *testing.T) {
+	hbDeepBasePath(t)
 	seed, _ := strconv.Atoi(os.Getenv("VERIF_SEED"))
 	histories, depth := 120, 30
 	if os.Getenv("VERIF_BOUNDED_LEVEL") == "thorough" {
